@@ -12,6 +12,9 @@ import hv
 TRANSPORT_MUX = {"tcp", "unix", "websocket", "udp"}      # one multiplexed connection per client
 
 PANIC_VALUES_QUICK = ["string", "error", "custom", "nil"]
+HOSTILE_QUICK = ["hostile-error-nilptr", "hostile-error-panics"]
+HOSTILE_MORE = ["hostile-error-runtime", "hostile-stringer-panics", "hostile-error-pointer-panics", "hostile-deep-format"]
+MAX_REQUEST_LENGTH = 2048      # what the harness sets Service.MaxRequestLength to in the oversize-request cells
 PANIC_VALUES_MORE = ["int", "pointer", "wrapped-error", "nil-error-pointer", "func", "slice",
                      "runtime-index", "runtime-nilmap", "runtime-nilptr", "runtime-divide"]
 
@@ -20,6 +23,8 @@ def variants(transport, side, fault, tier):
     q = tier == "quick"
     if fault == "service-panic":
         return PANIC_VALUES_QUICK if q else PANIC_VALUES_QUICK + PANIC_VALUES_MORE
+    if fault == "hostile-panic-value":
+        return HOSTILE_QUICK if q else HOSTILE_QUICK + HOSTILE_MORE
     if fault in ("invoke-plugin-panic", "missing-method-panic"):
         return ["string"] if q else PANIC_VALUES_QUICK + ["runtime-index", "int"]
     if fault == "io-plugin-panic":
@@ -39,14 +44,35 @@ def variants(transport, side, fault, tier):
             return ["declares-more"]
         return ["declares-more"] if q else ["declares-more", "declares-less"]
     if fault == "oversize-request":
-        return [""] if (q or side == "server") else ["", "just-over"]
+        if side == "server":
+            # every size around MaxRequestLength: the limit itself must pass, limit+1 must be refused
+            lo, hi = (MAX_REQUEST_LENGTH - 1, MAX_REQUEST_LENGTH + 1) if q else (MAX_REQUEST_LENGTH - 8, MAX_REQUEST_LENGTH + 8)
+            return [""] + ["size=%d" % n for n in range(lo, hi + 1)]
+        return [""] + ["size=%d" % n for n in range(UDP_WINDOW[0], UDP_WINDOW[1] + 1)]
     if fault == "oversize-response":
-        return [""] if q else ["", "just-over"]
+        return [""] + ["size=%d" % n for n in range(UDP_WINDOW[0], UDP_WINDOW[1] + 1)]
     if fault == "bad-payload":
         return ["truncated", "wrong-tag"] if q else ["truncated", "wrong-tag", "empty", "error-truncated"]
     if fault == "provider-panic":
         return ["string"] if q else ["string", "error", "custom", "nil", "runtime-index", "provider-plugin", "provider-missing"]
     return [""]
+
+
+UDP_WINDOW = (65490, 65520)    # every encoded size in the window around the datagram limit (model: udp_max_body)
+LIMITS = {"udp_max_body": None}  # filled from the model
+
+
+def size_of(case, o):
+    """(requested size, actual encoded size, limit) of a sized case, or None"""
+    v = case.get("variant") or ""
+    if not v.startswith("size="):
+        return None
+    want = int(v[5:])
+    ch = (o or {}).get("child") or {}
+    if case["fault"] == "oversize-response":
+        return want, ch.get("resp_len") or want, LIMITS["udp_max_body"]
+    limit = LIMITS["udp_max_body"] if case["side"] == "client" else MAX_REQUEST_LENGTH
+    return want, ch.get("req_len") or want, limit
 
 
 def parse_cell(name):
@@ -87,6 +113,8 @@ def observed_class(o):
         return "OtherConnAffected"
     if not ok(ch["after_same"]):
         return "LaterCallsFail"
+    if ch.get("during", "n/a") not in ("ok", "n/a"):
+        return "TeardownCallsFail"
     if ch["inflight_same"] not in ("ok", "n/a"):
         return "ConnClosed"
     return "CallError"
@@ -100,7 +128,12 @@ def same_conn_observable(case):
     return True
 
 
-def agrees(case, model, seen):
+def agrees(case, model, seen, o=None, m=None):
+    sz = size_of(case, o)
+    if sz is not None and sz[2] is not None and sz[1] <= sz[2]:
+        return seen == "CallError" and ((o.get("child") or {}).get("fault") == "ok")
+    if seen == "TeardownCallsFail":
+        return m is not None and not m["during_teardown_ok"]
     if model == seen:
         return True
     if model == "ConnClosed" and seen == "CallError" and not same_conn_observable(case):
@@ -108,7 +141,7 @@ def agrees(case, model, seen):
     return False
 
 
-FAULT_MUST_ERR = {"service-panic", "invoke-plugin-panic", "io-plugin-panic", "missing-method-panic", "decode-error",
+FAULT_MUST_ERR = {"service-panic", "hostile-panic-value", "invoke-plugin-panic", "io-plugin-panic", "missing-method-panic", "decode-error",
                   "decode-panic", "oversize-request", "oversize-response", "bad-payload", "provider-panic"}
 
 
@@ -133,16 +166,29 @@ def property_oracle(case, o):
         return ("other-connection-affected", "a call in flight on another connection failed: %s" % ch["inflight_other"])
     if not ok(ch["after_same"]):
         return ("later-calls-fail", "the same client cannot complete a call after the fault: %s" % ch["after_same"])
+    if ch.get("during", "n/a") not in ("ok", "n/a"):
+        return ("calls-during-teardown-fail", "a call issued by the same client while the faulty connection was being torn down "
+                "(from inside Transport.OnClose) failed instead of going over a fresh connection: %s" % ch["during"])
     f = ch["fault"]
     if f == "hang" or f.startswith("callerpanic:"):
         return ("faulty-call-" + ("hangs" if f == "hang" else "panics-in-caller"), "the faulty call itself: %s" % f)
+    sz = size_of(case, o)
+    if sz is not None and sz[2] is not None and sz[1] <= sz[2]:
+        # a message of exactly the limit or less is no fault at all: it must go through, and nothing else may happen
+        if f != "ok":
+            return ("within-limit-refused", "a message of %d encoded bytes (limit %d) was not delivered: %s" % (sz[1], sz[2], f))
+        if ch["inflight_same"] not in ("ok", "n/a"):
+            return ("within-limit-disturbs", "a message of %d encoded bytes (limit %d) cost the connection: %s" % (sz[1], sz[2], ch["inflight_same"]))
+        return None
     if case["fault"] in FAULT_MUST_ERR and not f.startswith("err:"):
         return ("faulty-call-no-error", "the faulty call did not end in an error: %s" % f)
     return None
 
 
 def key_of(case, symptom):
-    return "%s:%s:%s:%s" % (case["transport"], case["side"], case["fault"], symptom)
+    # the reverse provider's handling of a provided function is the same code on every transport
+    tr = "reverse-provider" if (case["side"] == "client" and case["fault"] in ("provider-panic", "hostile-panic-value")) else case["transport"]
+    return "%s:%s:%s:%s" % (tr, case["side"], case["fault"], symptom)
 
 
 def run_cases(cases, nproc=16):
@@ -153,13 +199,16 @@ def run_cases(cases, nproc=16):
 def model_verdicts(names):
     lines = hv.run_model("c11", ["accounted"] + names)
     acc = lines[0].split()
+    if len(acc) < 5:
+        raise hv.EnvError("modelrun-c11: unexpected output: %s" % lines[0])
+    LIMITS["udp_max_body"] = int(acc[4])
     out = {}
     for n, ln in zip(names, lines[1:]):
         parts = ln.split("|")
-        if len(parts) < 5:
+        if len(parts) < 6:
             raise hv.EnvError("modelrun-c11: unexpected output for %s: %s" % (n, ln))
         out[n] = {"verdict": parts[0], "contained": parts[1] == "1", "escaped": parts[2] == "1",
-                  "frame": parts[3], "stack": parts[4]}
+                  "frame": parts[3], "stack": parts[4], "during_teardown_ok": parts[5] == "1"}
     return acc, out
 
 
@@ -172,6 +221,9 @@ def run(ctx):
         "fasthttp's worker, the application's WorkerPool and the goroutine calling the client API have no recover",
         "panic(nil) is observed with GODEBUG=panicnil=0 (Go >= 1.21 semantics; with the legacy setting every "
         "`if e := recover(); e != nil` handler, including net/http's, cannot see it)",
+        "fmt.Sprintf shields ONE level of panics raised by a value's Error()/String() method (placeholder text); a value whose "
+        "method panics with a value whose method panics again defeats fmt (and net/http's own recover): such values are "
+        "probed and recorded in the thorough tier but carry no verdict",
         "runtime fatal errors (out of memory, concurrent map writes, stack overflow) are not panics and are out of scope",
         "what the recovering function does with the panic (error for the call / close the connection / end the serve loop) "
         "and the error paths of malformed frames are hand-written in the model and validated by the correspondence run only",
@@ -196,7 +248,8 @@ def run(ctx):
     unresolved = (gen.get("RecoverTable") or {}).get("unresolved_list") or []
     if unresolved:
         ctx.note("gotables_unresolved", unresolved[:20])
-    ctx.note("model_table_accounted", {"table_accounted": acc[0] == "1", "goroutines_present": acc[1] == "1", "unresolved": int(acc[2])})
+    ctx.note("model_table_accounted", {"table_accounted": acc[0] == "1", "goroutines_present": acc[1] == "1", "unresolved": int(acc[2]),
+                                       "format_shielded": acc[3] == "1", "udp_max_body": int(acc[4])})
     ctx.note("cells", len(names))
     run_corpus(ctx)
     cases = gen_cases(ctx, names)
@@ -236,7 +289,7 @@ def run(ctx):
         why = property_oracle(c, o)
         # a decode-panic trigger that no longer panics says nothing about containment
         if c["fault"] == "decode-panic" and c["variant"] != "codec-panic" and seen == "CallError" and why is None \
-                and not agrees(c, m["verdict"], seen) and "runtime error" not in (o["child"]["fault"] or ""):
+                and not agrees(c, m["verdict"], seen, o, m) and "runtime error" not in (o["child"]["fault"] or ""):
             inconclusive += 1
             ctx.bump("inconclusive", "trigger-did-not-panic")
             continue
@@ -246,7 +299,14 @@ def run(ctx):
             ctx.report(k, "%s [%s]: %s (model: %s)" % (c["cell"], c["variant"] or "-", text, m["verdict"]),
                        {"case": c, "observed": seen, "model": m, "observation": o, "failing_input": True,
                         "coq_witness": witness_name(c) if m["escaped"] else None})
-        if not agrees(c, m["verdict"], seen):
+        sz = size_of(c, o)
+        if sz is not None:
+            ctx.bump("sized_cases", "within-limit" if (sz[2] is not None and sz[1] <= sz[2]) else "over-limit")
+            if sz[0] != sz[1]:
+                ctx.bump("sized_cases", "requested-size-not-met")
+        if (o.get("child") or {}).get("during", "n/a") != "n/a":
+            ctx.bump("teardown_sentinels", (o["child"]["during"] or "")[:3])
+        if not agrees(c, m["verdict"], seen, o, m):
             disagreements.append((c, m, seen, o, why))
         else:
             validated += 1
@@ -289,6 +349,7 @@ def run(ctx):
                     "gotables_unresolved": unresolved[:10]})
     if ctx.tier == "thorough":
         legacy_probe(ctx, names)
+        nested_hostile_probe(ctx)
 
 
 def run_corpus(ctx):
@@ -334,6 +395,22 @@ def legacy_probe(ctx, names):
     byid, _ = run_cases(cases, nproc=4)
     ctx.note("legacy_panicnil_probe", {c["cell"]: (observed_class(byid[c["id"]]), (byid[c["id"]].get("child") or {}).get("fault"))
                                        for c in cases if c["id"] in byid})
+
+
+def nested_hostile_probe(ctx):
+    """Informational: panic values whose Error() panics with a value whose Error() panics again.  fmt.Sprintf re-panics
+    on the nested panic, so PanicError.Error() panics where no recover of the library reaches (Service.Handle's tail, the
+    handlers' send loops); Go's own net/http dies of the same value inside its recover handler."""
+    cases = []
+    i = 0
+    for t in ["mock", "fasthttp", "http", "tcp", "udp"]:
+        for v in ["nested-hostile", "self-hostile"]:
+            cases.append({"id": 910000 + i, "cell": "%s:server:nopool:hostile-panic-value" % t, "transport": t, "side": "server",
+                          "pool": False, "fault": "hostile-panic-value", "variant": v})
+            i += 1
+    byid, _ = run_cases(cases, nproc=8)
+    ctx.note("nested_hostile_probe", {"%s/%s" % (c["transport"], c["variant"]): observed_class(byid[c["id"]])
+                                      for c in cases if c["id"] in byid})
 
 
 def replay(ctx, path):
